@@ -229,6 +229,36 @@ def gen_incraw_case(rng):
             {'kind': 'incraw' + ('-junk' if junk else ''), 'nontrivial': True, 'class': []})
 
 
+def directed_cases(rng):
+    """the situations of the two repaired findings (and their neighbours), in every tier: every prefix is loaded"""
+    cat = ('d', [(b'Type', ('n', b'Catalog'))])
+    I5, I6, I7, I8 = ('i', 5), ('i', 6), ('i', 7), ('i', 8)
+    hs = {
+        # an object-stream member redefined plainly with generation 1 (former objstm-stale-generation), then once more
+        'stale-gen': [Rev('stream', [(1, 0, cat, 'plain'), (2, 0, I5, 0)]), Rev('stream', [(2, 1, I6, 'plain')]),
+                      Rev('table', [(2, 1, I7, 'plain')])],
+        'stale-gen-table': [Rev('stream', [(1, 0, cat, 'plain'), (2, 0, I5, 0), (3, 0, I6, 0)]), Rev('table', [(3, 2, I7, 'plain')])],
+        # an existing object updated inside an object stream of a hybrid revision (former hybrid-update)
+        'hybrid-newest': [Rev('table', [(1, 0, cat, 'plain'), (2, 0, I5, 'plain')]), Rev('hybrid', [(2, 0, I7, 0)])],
+        # ... the hybrid revision in the MIDDLE of the chain: XRefStm of an older trailer
+        'hybrid-middle': [Rev('table', [(1, 0, cat, 'plain'), (2, 0, I5, 'plain'), (3, 0, I6, 'plain')]),
+                          Rev('hybrid', [(2, 0, I7, 0)]), Rev('table', [(3, 0, I8, 'plain')])],
+        'hybrid-middle-stream': [Rev('stream', [(1, 0, cat, 'plain'), (2, 0, I5, 0), (3, 0, I6, 'plain')]),
+                                 Rev('hybrid', [(2, 0, I7, 0), (3, 0, I8, 0)]), Rev('stream', [(4, 0, I8, 'plain')])],
+        # ... a hybrid FIRST revision (its XRefStm is read once it is reached through Prev), then two updates
+        'hybrid-first': [Rev('hybrid', [(1, 0, cat, 'plain'), (2, 0, I5, 0)]), Rev('table', [(3, 0, I6, 'plain')]),
+                         Rev('hybrid', [(2, 0, I7, 0)])],
+        # two hybrid revisions in a row updating the same object
+        'hybrid-twice': [Rev('table', [(1, 0, cat, 'plain'), (2, 0, I5, 'plain')]), Rev('hybrid', [(2, 0, I6, 0)]),
+                         Rev('hybrid', [(2, 0, I7, 0)])],
+    }
+    cases = []
+    for name in sorted(hs):
+        cases += load_cases(rng, hs[name], 'directed-' + name)
+        cases += load_cases(rng, hs[name], 'directed-' + name + '-junk', junk=b'junk %PD\n')
+    return cases
+
+
 def gen_cases(rng, tier):
     n = 60 if tier == 'quick' else 1500
     cases = []
@@ -256,6 +286,7 @@ def gen_cases(rng, tier):
             kind += '-junk'
         cyc = revs[0].style == 'table' and not any(p[3] != 'plain' for p in revs[0].puts) and rng.random() < 0.3
         cases += load_cases(rng, revs, kind + ('-prevcycle' if cyc else ''), junk, self_cycle=cyc)
+    cases += directed_cases(rng)
     for k in range(n):
         cases.append(gen_inc_case(rng, big=(k % 30 == 7)))
     for k in range(n // 2):
